@@ -26,7 +26,7 @@ func (rp *RouteParam) GetAddress() *NameAddr {
 
 func ParseRoute(s string) (*Route, error) {
 	route := &Route{}
-	for _, routeParam := range strings.Split(s, ",") {
+	for _, routeParam := range splitUnquoted(s, ',') {
 		param, err := parseRouteParam(routeParam)
 		if err != nil {
 			return nil, err
@@ -38,7 +38,7 @@ func ParseRoute(s string) (*Route, error) {
 
 func parseRouteParam(s string) (*RouteParam, error) {
 	r := NewRouteParam()
-	pos := strings.Index(s, ">")
+	pos := indexUnquoted(s, '>')
 	if pos == -1 {
 		return nil, errors.New("route-param syntax error")
 	}
